@@ -12,6 +12,7 @@ from vt.util import V, EPS, case_rng, rng_for
 PROPERTY = "C09"
 TITLE = "Hit bookkeeping under every history"
 NEEDS_ICONTRACT = True
+TECHNIQUE = ("runtime monitoring: operation histories on antennas and antenna systems against a shadow model of the received signals (bit-exact touching windows), a noise-epoch dictionary, recorded front-end grids, and icontract class invariants (also evaluated while the repository's own tests run)")
 ANCHORS = ["pyrex.antenna:Antenna.waveforms", "pyrex.antenna:Antenna.all_waveforms", "pyrex.antenna:Antenna.full_waveform",
            "pyrex.antenna:Antenna.make_noise", "pyrex.antenna:Antenna.clear", "pyrex.antenna:Antenna.receive",
            "pyrex.detector:AntennaSystem.signals", "pyrex.detector:AntennaSystem.waveforms", "pyrex.detector:AntennaSystem.all_waveforms",
@@ -37,7 +38,10 @@ def caches_bounded(self):
     trig = getattr(self, "_triggers", None)
     if waves is None or trig is None:
         return True
-    sigs = self.antenna.signals if hasattr(self, "antenna") and not hasattr(self, "noisy") else self.signals
+    try:
+        sigs = self.antenna.signals if hasattr(self, "antenna") and not hasattr(self, "noisy") else self.signals
+    except AttributeError:
+        return True        # e.g. an AntennaSystem whose antenna has not been set up yet: nothing to compare
     return len(waves) <= len(sigs) and len(trig) <= len(waves)
 
 
@@ -62,10 +66,23 @@ def gen_cases(tier, seed):
         kind = kinds[i % len(kinds)]
         out.append({"cls": kind + (":noisy" if (i // len(kinds)) % 2 else ":noiseless"), "kind": kind, "noisy": bool((i // len(kinds)) % 2),
                     "nops": int(rng.integers(3, 26)), "unique": int(rng.integers(1, 6)), "nd": int(rng.integers(1, 20)), "gain": float(rng.uniform(0.5, 2))})
+    out.append({"cls": "repo-suite", "files": ['tests/test_antenna.py', 'tests/test_detector.py', 'tests/test_kernel.py']})      # the repository's own tests as one more workload for the contract
     return out
 
 
 def run_case(case):
+    if case["cls"] == "repo-suite":
+        from vt import suite
+        v_ = V()
+        rep = suite.run("c09", case["files"])
+        evals = sum(sum(x for x in d.values() if isinstance(x, int)) for d in rep.get("contract_evaluations", {}).values())
+        v_.events += evals
+        for f_ in rep.get("contract_failures", []):
+            v_.check(False, "contract holds while the repository's own tests run", test=f_["test"], message=f_["message"])
+        sample_ = {"workload": "repository test files under the contract", "files": rep.get("files"), "tests_collected": rep.get("collected"), "contract_evaluations": evals, "pytest": rep.get("tail")}
+        if rep.get("returncode") != 0 and not rep.get("contract_failures"):
+            return v_.result(decided=False, nontrivial=False, sample=sample_, skip="repository tests did not pass under the plugin")
+        return v_.result(decided=True, nontrivial=evals >= 50, sample=sample_)
     import pyrex.antenna as pa
     import pyrex.detector as pd
     from pyrex.signals import Signal
